@@ -1723,6 +1723,7 @@ static void doCall(State& s, const CallInst* ci, const Function* F, std::vector<
   }
   if (n == "__verif_check") {
     Val c = args[0];
+    if (args[1].sym()) args[1] = conc(args[1].w, concretize(s, args[1], "check id"));
     long id = (long)sx(args[1]);
     if (!c.sym()) {
       if (!c.c) { s.failedChecks.push_back((int)id); fatalViolation(s, "check", id); }
@@ -1735,7 +1736,7 @@ static void doCall(State& s, const CallInst* ci, const Function* F, std::vector<
     }
     return;
   }
-  if (n == "__verif_cover") { s.covers.push_back((int)sx(args[0])); return; }
+  if (n == "__verif_cover") { Val a = args[0]; if (a.sym()) a = conc(a.w, concretize(s, a, "cover id")); s.covers.push_back((int)sx(a)); return; }
   if (n == "__verif_observe") { s.observes.push_back(args[0]); return; }
   if (n == "__verif_concretize") { uint64_t v = concretize(s, args[0], "value (explicit case split)"); ret(conc(64, v)); return; }
   if (n == "__verif_expect_throw") { s.expectThrow = args[0].c != 0; return; }
